@@ -32,6 +32,8 @@ type Decision struct {
 }
 
 type Violation struct {
+	Endpoints []EndpointRec
+	Schedule []int    // thread ids in the order they were given the baton
 	RandInts []string // model values of crypto/rand.Int results, in call order
 	Clock  []string // model values of the harness clock readings (ns since year 1)
 	Kind   string // "assert", "index", "slice", "nil", "alloc", "panic", "divzero", "typeassert", "unwind", "race", "deadlock"
@@ -164,6 +166,8 @@ type Run struct {
 	randInts   []*Term
 	onceDone   map[string]bool
 	curScript  *scripted
+	schedLog   []int
+	endpoints  []*endpointState
 	guard      *Term
 	merges     int
 	predDepth  int
@@ -230,6 +234,8 @@ func (r *Run) report(kind string, site Site, msg string) {
 	for _, c := range r.clockLog {
 		v.Clock = append(v.Clock, r.sol.Value(c).String())
 	}
+	v.Schedule = append([]int{}, r.schedLog...)
+	v.Endpoints = r.evalEndpoints()
 	for _, c := range r.randInts {
 		v.RandInts = append(v.RandInts, r.sol.Value(c).String())
 	}
